@@ -65,6 +65,8 @@ class Plane:
         self.wn = wn
         self.calls = 0
         self.solves = []
+        self.last_q = 0.0
+        self.tank_q = 0.0
         self.sim = wntr.sim.WNTRSimulator(wn)
         with warnings.catch_warnings():
             warnings.simplefilter('ignore')
